@@ -130,6 +130,11 @@ def run(ctx, rep):
         if len(T.t) < 4:
             raise AnalysisError("attribute flag of %s taints almost nothing (%d locations): source anchor lost" % (api, len(T.t)))
     rep.floor("NI", 2)
+    # the flag cannot change the translation through history either: the parsed graph that encoder() edits in place (chirality
+    # fix-up) is the call's own, whatever the flag was in earlier calls (C04/S7 shared)
+    from sa.effects import Effects
+    from rules.shared import check_fresh_return
+    check_fresh_return(ctx, Effects(ctx), rep, ctx.fn("selfies.utils.smiles_utils.smiles_to_mol"), "NI", "smiles_to_mol")
     truthfulness(ctx, rep)
 
 
@@ -145,6 +150,7 @@ def truthfulness(ctx, rep):
     attrib.check_parser_attribution(ctx, rep, "TE2")
     attrib.check_graph_store(ctx, rep, "TE3")
     attrib.check_parser_positions(ctx, rep, "TE4")
+    attrib.check_encoder_fragment_offsets(ctx, rep, "TE5")
     for rule, fl in (("TI1", 1), ("TI2", 2), ("TI3", 3), ("TI4", 3), ("TC1", 3), ("TO1", 1), ("TO2", 1), ("TE1", 2), ("TE2", 1), ("TE3", 3), ("TE4", 1)):
         rep.floor(rule, fl)
     rep.analysed.update({"derivation": roles["D"].qual, "index_reader": roles["index_reader"].qual, "writer": wr["W"].qual,
